@@ -82,9 +82,9 @@ def check_pairing(run, A):
             """(source call, component) alternatives of the in-iteration value"""
             t = strip_views(t)
             outs = []
-            if t.op == 'gamma':
-                cond = t.args[0]
-                then_b = t.args[1] if cond.args[0] == 'IsNot' else t.args[2]
+            sp = LP.split_by_iteration(L, t)
+            if sp is not None:
+                then_b = sp[0]
                 for x in unwrap_gamma(then_b):
                     x = strip_views(x)
                     if x.op == 'unpack':
@@ -119,13 +119,16 @@ def check_pairing(run, A):
         # first iteration: quadratic form of ones
         qs = strip_views(qf)
         inits = []
-        if qs.op == 'gamma':
-            else_b = qs.args[2] if qs.args[0].args[0] == 'IsNot' else qs.args[1]
+        sp = LP.split_by_iteration(L, qs)
+        if sp is not None:
+            else_b = sp[1]
             for x in unwrap_gamma(else_b):
                 x = strip_views(x)
                 if x.op == 'mu':
                     inits += [strip_views(y) for y in unwrap_gamma(x.args[0])]
-        inits = [x for x in inits if x.op != 'undef']
+                else:
+                    inits.append(x)         # a start value used directly in the first iteration
+        inits = [x for x in inits if x.op not in ('undef', 'raise') and not (x.op == 'const' and x.args[0] is None)]
         # (an E-step hoisted in front of the loop may supply the start value as well: the start-pairing rule below decides that case)
         ok1 = bool(inits) and all(is_call_to(x, 'numpy.ones', 'numpy.ones_like') or (x.op == 'unpack' and (call_parts(strip_views(x.args[0]))[0] or '').endswith('predict'))
                                   for x in inits)
